@@ -2,6 +2,7 @@ import KM.Gen.Pins
 import KM.Lemmas.Auth
 import KM.Gen.Routes
 import KM.Model.Routes
+import KM.Gen.GoAuth
 /-! # C06 — no protected effect without a valid credential the endpoint accepts
 
 `checkAuth` is `KM.Auth.checkAuth` (repaired code); `Established` says the identity and
@@ -336,3 +337,42 @@ theorem c06_source_pins :
 
 end KM.Auth
 -- END PINS
+
+/-! ### `getRequiredWebUIAuthLevel` as TRANSLATED from the current source (go2lean) -/
+namespace KM.Routes
+open KM.Go KM.Gen
+
+/-- the translated `getRequiredWebUIAuthLevel` (seven sequential tests OR-ing a bit into the level)
+is the model's `webuiLevel`, for every operator list of arbitrary strings: the mask the web-UI
+routes hand to `checkAuth` is the OR of exactly the bits the listed methods stand for -/
+theorem c06_go_webui_level (prefs : List (List Char)) :
+    KM.Gen.GoAuth.getRequiredWebUIAuthLevel prefs = webuiLevel prefs := by
+  unfold KM.Gen.GoAuth.getRequiredWebUIAuthLevel webuiLevel
+  dsimp -proj -iota only
+  rw [forRange_fold (fun a p => a ||| webuiBit p)]
+  intro x s
+  unfold webuiBit authTypePassword authTypeFederated authTypeU2F authTypeSymantecVIP authTypeTOTP authTypeOkta2FA authTypeBootstrapOTP
+  by_cases h1 : x = "password".toList
+  · subst h1; simp
+  by_cases h2 : x = "federated".toList
+  · subst h2; simp
+  by_cases h3 : x = "U2F".toList
+  · subst h3; simp
+  by_cases h4 : x = "SymantecVIP".toList
+  · subst h4; simp
+  by_cases h5 : x = "TOTP".toList
+  · subst h5; simp
+  by_cases h6 : x = "Okta2FA".toList
+  · subst h6; simp
+  by_cases h7 : x = "BootstrapOTP".toList
+  · subst h7; simp
+  have b1 := beq_eq_false_iff_ne.mpr h1
+  have b2 := beq_eq_false_iff_ne.mpr h2
+  have b3 := beq_eq_false_iff_ne.mpr h3
+  have b4 := beq_eq_false_iff_ne.mpr h4
+  have b5 := beq_eq_false_iff_ne.mpr h5
+  have b6 := beq_eq_false_iff_ne.mpr h6
+  have b7 := beq_eq_false_iff_ne.mpr h7
+  simp only [b1, b2, b3, b4, b5, b6, b7, Bool.false_eq_true, if_false, Nat.or_zero]
+
+end KM.Routes
